@@ -19,7 +19,7 @@ RULE = (
     "non-trivial = the screen has >=2 plates and the op is not a no-op on the model"
 )
 ASSUMPTIONS = ["revealing a set consisting only of unknown plate ids may either raise ValueError or return the screen unchanged", "refusal of all-zero values is judged only when every plate of the revealed set is all zero"]
-REQUIRED = {"history_steps_checked": {"quick": 2500, "thorough": 40000}, "reveals_checked": {"quick": 600, "thorough": 10000}, "refusals_checked": {"quick": 100, "thorough": 1500}, "constructor_cases": {"quick": 150, "thorough": 2500}, "cli_steps": {"quick": 100, "thorough": 1500}, "earlier_stage_rechecks": {"quick": 10000, "thorough": 150000}, "branches": {"quick": 200, "thorough": 3000}, "in_place_reveals": {"quick": 150, "thorough": 2000}}
+REQUIRED = {"reveals_with_negative_unknown_id": {"quick": 60, "thorough": 900}, "history_steps_checked": {"quick": 2500, "thorough": 40000}, "reveals_checked": {"quick": 600, "thorough": 10000}, "refusals_checked": {"quick": 100, "thorough": 1500}, "constructor_cases": {"quick": 150, "thorough": 2500}, "cli_steps": {"quick": 100, "thorough": 1500}, "earlier_stage_rechecks": {"quick": 10000, "thorough": 150000}, "branches": {"quick": 200, "thorough": 3000}, "in_place_reveals": {"quick": 150, "thorough": 2000}}
 N_HIST = {"quick": 960, "thorough": 9600}
 
 
@@ -105,8 +105,12 @@ def run_shard(rec, tier, seed, shard, nshards):
                         flavour = rng.random()
                         if flavour < 0.2:
                             ids = ids + [ids[0]]  # repeated
-                        elif flavour < 0.4:
+                        elif flavour < 0.3:
                             ids = ids + [int(max(ids_all) + 1 + rng.integers(0, 5))]  # plus unknown
+                        elif flavour < 0.4:
+                            # plus an unknown NEGATIVE id (no plate has one); in front, behind or between
+                            ids.insert(int(rng.integers(0, len(ids) + 1)), -int(rng.integers(1, len(ids_all) + 3)))
+                            rec.count("reveals_with_negative_unknown_id")
                         elif flavour < 0.45:
                             ids = [int(max(ids_all) + 1 + rng.integers(0, 5))]  # only unknown
                         elif flavour < 0.5 and op == "reveal":
